@@ -102,9 +102,9 @@ func rulesC05(e *Engine, r *Report) {
 	}
 
 	// ---------------------------------------------------------------- R05.2
-	r.Rule("R05.2", "typestate table: every call of the state setter has a constant state and sits in its legal function: received ← {Receive, Recover worker}; validated ← {process, Recover}; failed ← {process, Receive}; finalized ← {putFileAway}; logged ← nobody (cache refill only). The validator's effects (FileMD5, Full→Wait rename, state changes) are reached only under getFileState(file.path) == received read under the path lock; finalize's deliverer call only under == validated")
+	r.Rule("R05.2", "typestate table: every call of the state setter has a constant state and sits in its legal function: received ← {Receive, Recover and its workers}; validated ← {process, Recover}; failed ← {process, Receive}; finalized ← {putFileAway}; logged ← nobody (cache refill only). The validator's effects (FileMD5, Full→Wait rename, state changes) are reached only under getFileState(file.path) == received read under the path lock; finalize's deliverer call only under == validated")
 	legal := map[string]map[string]bool{
-		sc.received:  {"stage.(*Stage).Receive": true, "stage.(*Stage).Recover$2": true},
+		sc.received:  {"stage.(*Stage).Receive": true, "stage.(*Stage).Recover$2": true, "stage.(*Stage).Recover": true}, // Recover itself: the pass that enters what is to be validated before anything is released (F57; guarded by R05.16)
 		sc.validated: {"stage.(*Stage).process": true, "stage.(*Stage).Recover": true},
 		sc.failed:    {"stage.(*Stage).process": true, "stage.(*Stage).Receive": true},
 		sc.finalized: {"stage.(*Stage).putFileAway": true},
